@@ -77,7 +77,7 @@ def _kv(pid, text, model_chk=False, extra=None):
 
 
 PROPS = {
-    "C01": _kv("C01", "Full proof on the model: for every history (any collections, keys, entry points, arguments, clocks, size limits, purges, drops, expiry firings) every read answers from the current document, every failed/refused call leaves the document's complete view unchanged, and every successful write is what the next read-back shows (C01_holds, by a per-call theorem over all entry points and document states lifted by induction over histories). Tied to the code by differential execution of generated histories with full read-back after every step."),
+    "C01": _kv("C01", "Full proof on the model: for every history (any collections, keys, entry points, arguments, clocks, size limits, purges, drops, expiry firings) every read answers from the current document, every failed/refused call leaves the document's complete view unchanged, and every successful write is what the next read-back shows (C01_holds, by a per-call theorem over all entry points and document states lifted by induction over histories). A purge takes away only body-less documents (store-level theorem C05_purge; its trace-level check is validated on model traces by evaluation). Tied to the code by differential execution of generated histories with full read-back after every step.", model_chk=True),
     "C02": _kv("C02", "Sequential part proved in full on the model: a conditional write (every entry point that carries an expected CAS) that succeeds had an expected CAS equal to the document's current CAS (0 = no document; for WriteCas no live document), and one that fails changes nothing (C02_holds, all histories). The two-writer race: for every schedule of the conditional-write loop a successful write was made on the CAS it read (Conc.v, C03); on the code, the lin family's certificate check includes the one-winner rule (no two successful conditional writes carry the same expected CAS) under real goroutine races, WithMeta writers included.", extra=[{"family": "lin"}]),
     "C05": _kv("C05", "Full proof on the model: in every reachable store the tombstone column equals 'value IS NULL' (C05_flag_iff_nobody), and every history is accepted by the checker: deletion opcode iff no body, Delete/Remove keep exactly the system xattrs and clear the expiry, a body write onto a body-less key leaves only the supplied xattrs (C05_holds); PurgeTombstones removes exactly the body-less rows (C05_purge, on the store; its trace-level check is validated on model traces by evaluation).", model_chk=True),
     "C06": _kv("C06", "Full proof on the model: for every history an insert-style write (Add, AddRaw, WriteCas AddOnly / cas 0, WriteResurrectionWithXattrs) succeeds only on a key without a body and a refusal happens only on a key with a body and leaves it untouched; WriteWithXattrs cas 0 succeeds only on an absent key (C06_holds)."),
